@@ -10,6 +10,7 @@
 #include "aes.h"
 #include "base64.h"
 #include "getval.h"
+#include <pthread.h>
 #include <stdio.h>
 #include <stdlib.h>
 #include <string.h>
@@ -802,6 +803,42 @@ int main(int argc, char **argv)
       for (auto &o : split(a[1], ';'))
         ops.push_back(split(o, ','));
       isolated(id, ops);
+    }
+    else if (a[0] == "par" && a.size() >= 3)
+    {
+      // par ITER op;op;...  (fields of an op separated by ','): every op runs ITER times in its own REAL thread, all threads
+      // at the same time; prints per op "<first result>:<number of iterations whose result differed from the first>".
+      // The pure entry points (aes, mode, hstr) must give the same answers however many threads use them at once.
+      struct job { std::vector<std::string> a; int iter; std::string first; int diff; };
+      std::vector<job> jobs;
+      for (auto &o : split(a[2], ';'))
+        jobs.push_back(job{split(o, ','), atoi(a[1].c_str()), "", 0});
+      static volatile int go;
+      go = 0;
+      std::vector<pthread_t> th(jobs.size());
+      for (size_t i = 0; i < jobs.size(); ++i)
+        pthread_create(&th[i], NULL, [](void *p) -> void * {
+          job *j = (job *)p;
+          while (!go)
+            ;
+          for (int k = 0; k < j->iter; ++k)
+          {
+            std::vector<std::string> c = j->a;
+            std::string r = handle(c);
+            if (k == 0)
+              j->first = r;
+            else if (r != j->first)
+              j->diff++;
+          }
+          return NULL; }, &jobs[i]);
+      go = 1;
+      std::string r;
+      for (size_t i = 0; i < jobs.size(); ++i)
+      {
+        pthread_join(th[i], NULL);
+        r += (i ? " " : "") + jobs[i].first + ":" + std::to_string(jobs[i].diff);
+      }
+      fprintf(res, "%s %s\n", id.c_str(), r.c_str());
     }
     else
     {
